@@ -3,6 +3,8 @@ from __future__ import annotations
 
 import importlib
 
+import zlib
+
 from .. import core, obs
 from ..core import enc
 
@@ -46,8 +48,8 @@ def make_text(rng):
             piece = core.edit(s, rng, ver)
             valid = None  # unknown
         # delimiters
-        left = rng.choice([" ", "\n", "(", "\"", "=", "", "x", ":", "/", "1", ".", "é", "٣"])
-        right = rng.choice([" ", "\n", ")", "\"", ",", "", "x", ":", "/", "1", ".", "é"])
+        left = rng.choice([" ", "\n", "(", "\"", "=", "", "x", ":", "/", "1", ".", "é", "٣", "\ud800", "x\udfff", "\u00a0", "\u200b", "\x00", "\U0001f600", "_", "-"])
+        right = rng.choice([" ", "\n", ")", "\"", ",", "", "x", ":", "/", "1", ".", "é", "\udc00", "\ud83dx", "\u00a0", "\u200b", "\x00", "_", "-"])
         parts.append(left + piece + right)
         parts.append(("__END__", valid, ver, piece))
     # assemble and decide delimitation on the final text
@@ -165,13 +167,36 @@ def run(ctx):
     for boundary in ([4096, 65536] if ctx.tier == "quick" else [1024, 4096, 8192, 16384, 32768, 65536, 131072, 262144]):
         for delta in list(range(0, 14)) + [rng.randrange(14, 140) for _ in range(4)] + [-1, -5]:
             texts.append(long_text(rng, boundary, delta))
+    # megabyte sizes: fewer offsets, but spread over a whole vector length (a window overlap shorter than a vector)
+    for boundary in ([1 << 20] if ctx.tier == "quick" else [1 << 20, 1 << 21, 1 << 22, 3 << 20]):
+        for delta in ([3, 40, 70, 100] if ctx.tier == "quick" else list(range(2, 130, 9))):
+            texts.append(long_text(rng, boundary, delta))
     ctx.extra["longest_text"] = max(len(t) for t, _ in texts)
+    from .. import conc
+    conc.flag_variants(ctx, [["X", t] for t, _ in texts[:: max(1, len(texts) // ctx.n(80, 800))] if len(t) < 3000 and core.sendable(t)], "extraction")
     ctx.count(len(texts))
     ctx.sample({"text": texts[len(FIXED) + 1][0], "must_contain": texts[len(FIXED) + 1][1]})
     impl_sets = []
+    from cvss.parser import parse_cvss_from_text as _parse
     for text, must in texts:
         ctx.nontrivial(text)
         impl_sets.append(oracle(ctx, text, must))
+        if len(text) < 5000 and zlib.crc32(text.encode("utf-8", "replace")) % 5 == 0:
+            # the returned list belongs to the caller: emptying / stuffing it must not change what the next call on the SAME
+            # text returns
+            try:
+                r1 = _parse(text)
+                del r1[:]
+                r1.append("junk")
+                r2 = _parse(text)
+                r2.extend(r2[:])
+            except Exception:  # noqa  (reported by the oracle)
+                pass
+            again = oracle(ctx, text, must)
+            ctx.count()
+            if again != impl_sets[-1]:
+                ctx.violation("result-changes-after-the-caller-edited-an-earlier-result", "parse_cvss_from_text(text) returns something else after an earlier result list was edited",
+                              text, impl_sets[-1], again, replay={"text": text, "must": [list(x) for x in must], "edited": True})
         ctx.tally.add("results:%d" % (len(impl_sets[-1]) if impl_sets[-1] is not None else -1))
     if ctx.model_available and RETURNED:
         ret = list(dict.fromkeys((v, vec) for v, vec, _ in RETURNED if core.sendable(vec)))
@@ -219,6 +244,19 @@ def replay(data):
             self.v.append(sig + ": " + what)
     c = C()
     res = oracle(c, r["text"], [tuple(x) for x in r["must"]])
+    if r.get("edited"):
+        from cvss.parser import parse_cvss_from_text as _parse
+        try:
+            r1 = _parse(r["text"])
+            del r1[:]
+            r1.append("junk")
+            r2 = _parse(r["text"])
+            r2.extend(r2[:])
+        except Exception:  # noqa
+            pass
+        again = oracle(c, r["text"], [tuple(x) for x in r["must"]])
+        if again != res:
+            c.v.append("after the caller edited earlier result lists the same text gives %r instead of %r" % (again, res))
     if r.get("grammar"):
         v, vec = r["grammar"]
         still = any(rv == v and rvec == vec for rv, rvec, _ in RETURNED)
